@@ -671,7 +671,7 @@ func vC18NonCanonical(s string) bool {
 			i++
 			continue
 		}
-		if vC18IsSpecial(s[i]) {
+		if vC18IsSpecial(s[i]) || s[i] < '!' || s[i] > '~' {
 			return true
 		}
 	}
@@ -896,6 +896,61 @@ func vC18SpellingFkey(coq string, desc any) string {
 			}
 			probes, observed = append(probes, q), append(observed, got)
 		}
+	case strings.HasPrefix(coq, "CaseHistory ") && d["ops"] != nil:
+		// a key typed with a byte the wire decoder escapes, and the list now holds an entry under
+		// another spelling than any that was typed (what the proposed repair does — the code as it
+		// is keeps every key as typed, so on it this never applies): the model differs on the strings
+		typed := map[string]bool{}
+		hand := false
+		note := func(k string) {
+			ck := dns.CanonicalName(k)
+			typed[ck] = true
+			typed[strings.TrimPrefix(ck, "*.")] = true
+			if vC18NonCanonical(k) {
+				hand = true
+			}
+		}
+		for _, k := range append(append(vC18Strs(d["m0"]), vC18Strs(d["wild0"])...), vC18Strs(d["whitelist"])...) {
+			note(k)
+		}
+		ops, _ := d["ops"].([]any)
+		for _, o := range ops {
+			if v, ok := o.([]any); ok && len(v) == 3 {
+				for _, k := range vC18Strs(v[1]) {
+					note(k)
+				}
+			}
+		}
+		if hand {
+			listed := append(vC18Strs(d["m1"]), vC18Strs(d["wild1"])...)
+			if d["whitelist"] != nil {
+				listed = append(listed, vC18Strs(d["w"])...)
+			}
+			// ... and every such entry is another spelling of a name that WAS typed: an entry that
+			// denotes a name nobody typed (cut, mangled) is a different failure and stays strict
+			sameName := func(e string) bool {
+				le, _ := vC18Decode(e)
+				for t := range typed {
+					if lt, _ := vC18Decode(t); strings.Join(lt, "\x00") == strings.Join(le, "\x00") && len(lt) == len(le) {
+						return true
+					}
+				}
+				return false
+			}
+			respelled := false
+			for _, e := range listed {
+				if !typed[e] {
+					if !sameName(e) {
+						return ""
+					}
+					respelled = true
+				}
+			}
+			if respelled {
+				return vC18SpellingKey
+			}
+		}
+		return ""
 	case strings.HasPrefix(coq, "CaseReload "):
 		// a configured whitelist entry spelled by hand, and the fresh list keys it by another
 		// spelling than the one typed (what the proposed repair does): the model, which
@@ -1525,7 +1580,7 @@ func vC18CaseHistory(t *testing.T, r *rand.Rand, out *vC18Out, special bool) {
 	{
 		out.emit(hk, fmt.Sprintf("CaseHistory %s %s %s [%s] %s %s %s", vC18List(m0), vC18List(wild0), vC18List(w), strings.Join(parts, "; "),
 			vC18List(m1), vC18List(wild1), vC18OptStr(present, file)),
-			map[string]any{"m0": m0, "wild0": wild0, "w": w, "ops": descOps, "m1": m1, "wild1": wild1, "file_present": present, "file": file}, anyOK, "", "")
+			map[string]any{"m0": m0, "wild0": wild0, "w": w, "whitelist": cfg.Whitelist, "ops": descOps, "m1": m1, "wild1": wild1, "file_present": present, "file": file}, anyOK, "", "")
 	}
 	if len(cfg.Blocklist) == 0 && present {
 		if special {
